@@ -4,6 +4,7 @@ import Props.C02
 #print axioms SpyneModel.Props.C02.facts02_mp
 #print axioms SpyneModel.Props.C02.hier_roundtrip
 #print axioms SpyneModel.Props.C02.hier_request_fidelity
+#print axioms SpyneModel.Props.C02.hier_client_request_roundtrip
 #print axioms SpyneModel.Props.C02.hier_decodes_conventional
 #print axioms SpyneModel.Props.C02.hier_decodes_msgpack_keys
 #print axioms SpyneModel.Props.C02.hier_response_fidelity
